@@ -27,7 +27,7 @@ MIN = {"quick": {"coverage": 1500, "density": 1000, "node_density": 2500, "edge_
        "thorough": {"coverage": 60000, "density": 40000, "node_density": 100000, "edge_contribution": 100000,
                     "inter_event(global)": 60000, "inter_event(node)": 100000, "inter_out_event(node)": 20000}}
 REQUIRED_CELLS = {t: ("state:multi-run", "state:interval", "state:isolated", "state:node-disappears",
-                      "state:>128-shared-snapshots", "ids:signs", "state:>64-nodes", "state:numpy+>63-snapshots")
+                      "state:>128-shared-snapshots", "ids:signs", "state:>64-nodes", "state:numpy+>63-snapshots", "asked-on-empty-graph-first")
                   for t in ("quick", "thorough")}
 
 
@@ -91,6 +91,14 @@ def ratios(ctx, dn):
             ctx.cell("state:>128-shared-snapshots")
     G = driver.new_graph(dn, False, True)
     m = Model(False, True)
+    if rng.random() < 0.3:
+        # a caller that asks too early (no snapshot yet: the ratio measures are undefined and may raise) and goes on
+        for f in (G.density, G.uniformity, G.coverage, G.avg_number_of_nodes):
+            try:
+                f()
+            except Exception:
+                pass
+        ctx.cell("asked-on-empty-graph-first")
     ctx.cases += 1
     ctx.case = dict(workload="RATIOS", program=prog)
     cuts = sorted(set([len(prog)] + [rng.randint(1, len(prog)) for _ in range(2)]))
@@ -132,13 +140,20 @@ def evaluate_ratios(ctx, dn, G, m, last):
     if any(0 < len(Tn[n]) < len(T) for n in V):
         ctx.cell("state:node-disappears")
     d0 = dict()
-    stat(ctx, "coverage", G.coverage, ratio(sum(len(Vt[t]) for t in T), len(T) * len(V)), d0)
-    stat(ctx, "avg_number_of_nodes", G.avg_number_of_nodes, ratio(sum(len(Vt[t]) for t in T), len(T)), d0, unit=False)
     num = sum(len(Tn[u] & Tn[v]) for u, v in combinations(V, 2))
     den = sum(len(Tn[u] | Tn[v]) for u, v in combinations(V, 2))
-    stat(ctx, "uniformity", G.uniformity, ratio(num, den), d0)
     pd_num = sum(len(m.P.get(frozenset((u, v)), ())) for u, v in combinations(V, 2))
-    stat(ctx, "density", G.density, ratio(pd_num, num), d0)
+
+    def global_stats():
+        stat(ctx, "coverage", G.coverage, ratio(sum(len(Vt[t]) for t in T), len(T) * len(V)), d0)
+        stat(ctx, "avg_number_of_nodes", G.avg_number_of_nodes, ratio(sum(len(Vt[t]) for t in T), len(T)), d0,
+             unit=False)
+        stat(ctx, "uniformity", G.uniformity, ratio(num, den), d0)
+        stat(ctx, "density", G.density, ratio(pd_num, num), d0)
+    # the order in which a caller asks is free: graph-level measures first, or node-level ones first
+    globals_first = rng.random() < 0.5
+    if globals_first:
+        global_stats()
     for u in rng.sample(V, min(3, len(V))):
         du = dict(u=u)
         stat(ctx, "node_contribution", lambda: G.node_contribution(u), ratio(len(Tn[u]), len(T)), du)
@@ -161,6 +176,8 @@ def evaluate_ratios(ctx, dn, G, m, last):
                  ratio(len(m.P.get(k, ())), inter) if inter else Fraction(0), duv)
             if k in m.P:
                 stat(ctx, "edge_contribution", lambda: G.edge_contribution(u, v), ratio(len(m.P[k]), len(T)), duv)
+    if not globals_first:
+        global_stats()
     for t in rng.sample(T, min(3, len(T))):
         sub = St[t].subgraph(Vt[t])
         stat(ctx, "snapshot_density", lambda: G.snapshot_density(t), Fraction(nx.density(sub)).limit_denominator(10 ** 6),
